@@ -265,7 +265,7 @@ def countOf (st : St) (h : Hints) (a b : List Float) : Nat × Bool :=
       let ext := (0.0 + 1.0 * rvExtent st.ctx 2 0.0) + 0.5 * pi
       d.map (fun dist => segCount st.topFac dist (ext * st.ctx.frac))
     | _, _, _ => none
-  -- Vana: path (or its absence) from C14's `OmplModel.Vana.getPath`; distance = path length, or the maximum
+  -- Vana: path (or its absence) from C14's `OmplModel.Vana.getPath` (with the last-arc pitch test of the F129 fix, as /repo has it); distance = path length, or the maximum
   -- extent when there is no path; extent = 1.0 * |R^4 box (x y z in [lo,hi], pitch in [-pi/6, pi/6])| + 0.5 * pi
   let vanaNP : Option (Nat × Bool) := match st.isVana, a, b with
     | true, [x1, y1, z1, p1, t1], [x2, y2, z2, p2, t2] =>
@@ -273,7 +273,7 @@ def countOf (st : St) (h : Hints) (a b : List Float) : Nat × Bool :=
       let dp := sixthPi - (-sixthPi)
       let ext := (0.0 + 1.0 * Float.sqrt ((((0.0 + d3 * d3) + d3 * d3) + d3 * d3) + dp * dp)) + 0.5 * pi
       let L := ext * st.ctx.frac
-      match OmplModel.Vana.getPath false st.rho (-sixthPi) sixthPi 1e-8
+      match OmplModel.Vana.getPath true st.rho (-sixthPi) sixthPi 1e-8
           (⟨x1, y1, z1, p1, t1⟩ : OmplModel.Vana.St5 Float) ⟨x2, y2, z2, p2, t2⟩ with
       | some path => some (segCount st.topFac path.len L, true)
       | none => some (segCount st.topFac ext L, false)
